@@ -1,10 +1,11 @@
-\* (M) ideal keys: Fresh holds over all histories of 6 steps on 2 paths
+\* (M) ideal keys: Fresh holds over all histories of 5 steps on 2 paths
 CONSTANTS Paths = {1, 2}
           NVersions = 3
           Modes = {0, 1, 2}
-          MaxActions = 6
+          MaxActions = 5
           KeyModel = 0
           VStep = {1, 2}
+          TimeChoices = {0, 1, 2, 3, 4}
           WithX = TRUE
           EmitOn = FALSE
           Sim = FALSE
